@@ -65,6 +65,14 @@ class LogicC04:
 
     raises = {}
 
+    clause_when = {
+        "node-presentation": lambda c: c.get("cmd") == 0,
+        "child-presentation": lambda c: c.get("cmd") == 0,
+        "set-value": lambda c: c.get("cmd") == 1,
+        "attributes": lambda c: c.get("cmd") == 3,
+        "read-only-kinds": lambda c: c.get("cmd") in (2, 4),
+    }
+
     ensures = {
         # nodes appear only through node presentation or id assignment; nobody disappears
         "nodes-only-appear": lambda old, self, data, result: forall(old.self.sensors, lambda m: m in self.sensors)
